@@ -164,6 +164,12 @@ func cmdRaceRun(args []string) error {
 	for i := 0; i < 6; i++ {
 		g := genProgram(rng, fmt.Sprintf("r%d", i))
 		g.MaxLevel = 0
+		if i%2 == 0 {
+			// a very small catch node (6 bytes, as in examples/http): code this short fits into the spare capacity of
+			// whatever buffer the VM appends it to
+			g.Nodes["_catch"] = []Instr{{Op: "HALT"}, {Op: "MOVE", A: "^"}}
+			g.build()
+		}
 		progs = append(progs, g)
 	}
 	state.MaxLevel = 128
